@@ -36,7 +36,7 @@ def shards(tier):
 def required_counters(tier):
     return {'judged:class': 200, 'judged:param': 500, 'judged:meta': 200, 'judged:membership-sky-vs-pixel': 500,
             'judged:membership-pixel-vs-sky': 500, 'judged:text-rotation': 5, 'lane:pix2sky2pix:CompoundPixelRegion': 3,
-            'lane:sky2pix2sky:CompoundSkyRegion': 3}
+            'lane:sky2pix2sky:CompoundSkyRegion': 3, 'history-steps': 50, 'judged:history': 50}
 
 
 def generate(rng, tier, shard, nshards):
@@ -97,7 +97,9 @@ def build_sky_leaf(d, w):
     """sky region whose centre is the sky image of a pixel near CRPIX."""
     prng = random.Random(d['seed'])
     x, y = w.wcs.crpix[0] - 1 + d['dx'], w.wcs.crpix[1] - 1 + d['dy']
-    c = w.pixel_to_world(x, y).transform_to(d['frame'])
+    c = w.pixel_to_world(x, y)
+    if c.frame.name != d['frame']:
+        c = c.transform_to(d['frame'])      # else: keep the WCS's own frame, with its attributes (e.g. FK5 equinox)
     sph = c.spherical
     sp = gen.sky_region_spec(prng, cls=d['cls'], frame=d['frame'], lon=float(sph.lon.deg), lat=float(sph.lat.deg), size_deg=d['size_deg'])
     m = gen.rich_meta(prng, include=prng.choice(gen.INCLUDE_CHOICES))
@@ -108,7 +110,15 @@ def build_sky_leaf(d, w):
     sp['visual'] = gen.rich_visual(prng)
     if d['cls'] == 'TextSkyRegion' and prng.random() < 0.7:
         sp['visual']['rotation'] = prng.uniform(-180, 180)
-    return S.build(sp)
+    reg = S.build(sp)
+    if c.frame.name == d['frame'] and c.frame.name == 'fk5' and abs(c.frame.equinox.jyear - 2000.0) > 1e-9:
+        # re-create the coordinates in the WCS's exact frame (S.sky() specs name frames without attributes)
+        from astropy.coordinates import SkyCoord
+        for pname in reg._params:
+            v = getattr(reg, pname)
+            if isinstance(v, SkyCoord):
+                setattr(reg, pname, SkyCoord(v.data.lon, v.data.lat, frame=c.frame.replicate_without_data()))
+    return reg
 
 
 def build_sky(d, w):
@@ -298,6 +308,28 @@ def run_case(case, obs):
         compare_regions(obs, sky, back, 'sky->pixel->sky', w, weak)
         obs.check(S.fingerprint(sky) == fp0, 'conversion-mutates-input', 'to_pixel/to_sky changed the input region', 'meta')
         membership_checks(obs, pix, sky, w, case)
+        # history on the same objects: convert again (a second conversion must not depend on the first), then edit the sky
+        # region in place / by assignment and ask again - the answers must follow the region's current state
+        pix2 = sky.to_pixel(w)
+        obs.check(S.fingerprint(pix2) == S.fingerprint(pix), 'second-conversion-differs', 'converting the same sky region twice gives different pixel regions', 'history')
+        obs.check(S.fingerprint(sky) == fp0, 'conversion-mutates-input', 'a second to_pixel changed the sky region', 'history')
+        prng = random.Random(case['rs'])
+        for step in range(2):
+            leaf = sky.region1 if type(sky).__name__.startswith('Compound') else sky
+            how = prng.choice(['meta-item', 'meta-update', 'size', 'visual-item'])
+            if how == 'meta-item':
+                leaf.meta['include'] = not bool(dict.get(leaf.meta, 'include', True))
+            elif how == 'meta-update':
+                leaf.meta.update({'include': not bool(dict.get(leaf.meta, 'include', True))})
+            elif how == 'visual-item':
+                leaf.visual['color'] = 'edited'
+            else:
+                for pname in ('radius', 'outer_radius', 'width', 'outer_width'):
+                    if pname in leaf._params:
+                        setattr(leaf, pname, getattr(leaf, pname) * 1.5)
+                        break
+            obs.count('history-steps')
+            membership_checks(obs, sky.to_pixel(w), sky, w, dict(case, rs=prng.randrange(2 ** 31)))
 
 
 MUTANTS = [
